@@ -62,9 +62,12 @@ def emit(forest, id_form, rng, decorate):
     """forest: children of the root. returns Lit"""
     counter = [1]
 
-    def node_expr(k):
+    def node_expr(k, root=False):
         if decorate == 0:
             return "ev(log, %d)" % k
+        if not root and rng.random() < 0.12:
+            # type of the expression left to inference (the payload type of the arena decides)
+            return "ev(log, %d).into()" % k
         return rng.choice(NODE_SPELL).format(k=k)
 
     def emit_children(kids, indent):
@@ -94,7 +97,7 @@ def emit(forest, id_form, rng, decorate):
     if id_form:
         root = rng.choice(ROOT_ID_SPELL) if decorate else "rid(log, anchor)"
     else:
-        root = node_expr(0)
+        root = node_expr(0, root=True)
     s, x = emit_children(forest, 1)
     lit.nexpr = counter[0] - 1 + (0 if id_form else 1)
     if forest:
